@@ -286,6 +286,21 @@ fn run_all(c: &AllCase) -> Verdict {
         ensure!(m.max_var().map(|v| v < n).unwrap_or(true), "all:var-range", "Cube::all({}) yields {} with a variable >= {}", n, m.show(), n);
         ensure!(seen.insert(m.clone()), "all:duplicate", "Cube::all({}) yields {} twice", n, m.show());
     }
+    // the same enumeration through other iterator methods (count, last, nth, fold, skip)
+    {
+        let cnt = lib!("Cube::all().count()", Cube::all(n).count());
+        ensure!(cnt == want, "all:consume", "Cube::all({}).count() = {}, expected {}", n, cnt, want);
+        let last = lib!("Cube::all().last()", Cube::all(n).last());
+        ensure!(last == all.last().copied(), "all:consume", "Cube::all({}).last() differs from the last item yielded by next()", n);
+        let folded = lib!("Cube::all().fold", Cube::all(n).fold(0usize, |c, _| c + 1));
+        ensure!(folded == want, "all:consume", "Cube::all({}) folded yields {} items, expected {}", n, folded, want);
+        for k in [0usize, 1, want / 2, want.saturating_sub(1), want, want + 7] {
+            let got = lib!("Cube::all().nth", Cube::all(n).nth(k));
+            ensure!(got == all.get(k).copied(), "all:consume", "Cube::all({}).nth({}) differs from item {} yielded by next()", n, k, k);
+            let got = lib!("Cube::all().skip", Cube::all(n).skip(k).next());
+            ensure!(got == all.get(k).copied(), "all:consume", "Cube::all({}).skip({}).next() differs from item {} yielded by next()", n, k, k);
+        }
+    }
     // minterm(n, m) is true exactly at m
     if n <= 6 {
         for m in 0..(1usize << n) {
@@ -315,7 +330,7 @@ fn enumerate_all(t: Tier, shard: usize, nshards: usize, f: &mut dyn FnMut(AllCas
 pub fn def() -> PropDef {
     PropDef {
         id: "C12",
-        rule: "pairs: cases = (nv, a, b, assignments): cubes are *build descriptions* over variables < nv (nv in 0..=32) through every constructor — one, zero, nth_var(_inv), from_vars with repeated and overlapping lists, from_mask with disjoint and overlapping masks, minterm(n<=31, m), and chains of & in its four reference forms — whose meaning is computed by the harness's literal-set model. Checked: the literals read back through pos_vars()/neg_vars() are the model's; every contradictory result == Cube::zero(); is_zero/is_one/is_constant/num_lits/num_gates; value(m) on all assignments (nv<=5) plus generated 32-bit assignments plus constructed ones (satisfying a, b, a&b, and single-bit near misses); a == b iff same function; a & b in 4 forms; implies/intersects in both directions decided semantically — by enumeration of all assignments for nv<=5 and by the literal-set theorem with a constructed witness assignment checked through value() otherwise. Non-trivial = both cubes have >= 2 literals and share a variable. Exhaustive: all (3^n+1)^2 ordered pairs for n<=4 (quick) / n<=5 (thorough). implies_lut: all cubes x all functions n<=3 (quick) / n<=4 (thorough) plus generated up to n=8, against the definition. all: Cube::all(n) yields exactly 3^n distinct non-contradictory cubes over variables < n for n<=8 (9 thorough), and minterm(n,m) is true exactly at m (n<=6, all m).",
+        rule: "pairs: cases = (nv, a, b, assignments): cubes are *build descriptions* over variables < nv (nv in 0..=32) through every constructor — one, zero, nth_var(_inv), from_vars with repeated and overlapping lists, from_mask with disjoint and overlapping masks, minterm(n<=31, m), and chains of & in its four reference forms — whose meaning is computed by the harness's literal-set model. Checked: the literals read back through pos_vars()/neg_vars() are the model's; every contradictory result == Cube::zero(); is_zero/is_one/is_constant/num_lits/num_gates; value(m) on all assignments (nv<=5) plus generated 32-bit assignments plus constructed ones (satisfying a, b, a&b, and single-bit near misses); a == b iff same function; a & b in 4 forms; implies/intersects in both directions decided semantically — by enumeration of all assignments for nv<=5 and by the literal-set theorem with a constructed witness assignment checked through value() otherwise. Non-trivial = both cubes have >= 2 literals and share a variable. Exhaustive: all (3^n+1)^2 ordered pairs for n<=4 (quick) / n<=5 (thorough). implies_lut: all cubes x all functions n<=3 (quick) / n<=4 (thorough) plus generated up to n=8, against the definition. all: Cube::all(n) yields exactly 3^n distinct non-contradictory cubes over variables < n for n<=8 (9 thorough), the same items through count/last/fold/nth/skip (also beyond the end), and minterm(n,m) is true exactly at m (n<=6, all m).",
         assumptions: vec![
             "minterm(32, .) and nth_var(>=32) are outside the domain (u32 shift; no caller in the crate reaches them)",
             "cubes are observed through pos_vars()/neg_vars()/value()/==",
